@@ -23,15 +23,17 @@ def run(ctx):
         pc.design(ctx, ["MC_Production_member_thorough.cfg", "MC_Production_endorse_thorough.cfg", "MC_Production_pos_thorough.cfg",
                         "MC_Production_pos0_thorough.cfg", "MC_Production_sibling_thorough.cfg"], timeout=3000)
     # 2. the model has teeth: every cache rule of the code is needed for CacheCoherent; nothing holds vacuously
-    pc.teeth(ctx, pc.TEETH[:3] + pc.TEETH[5:] if q else None)
+    pc.teeth(ctx, pc.TEETH[:3] + pc.TEETH[5:] if q else None, pc.VACUITY[1:2] + pc.VACUITY[3:4] + pc.VACUITY[6:7] if q else None)
     # 3. the trace specification has teeth
     pc.binding_demo(ctx)
+    # 4a. hand-made scenarios, one per cache rule (the rightful slot owner packs, so that the caches are actually kept)
+    pc.drive(ctx, ["-mode", "directed", "-seed", str(ctx.seed)], "directed", acc)
     # 4. model -> implementation: behaviours sampled by TLC, concretised (real txs, real packer, real consensus with
     #    warm / cold / sibling-first / other-conflicts / repeated / restarted histories); the recorded runs go back
     #    through Trace_Production.tla (implementation -> model)
     nbeh = 0
     for prof in ("poa", "gal3", "pos", "pos0"):
-        path, behs = pc.export_behaviours(ctx, prof, 25 if q else 400)
+        path, behs = pc.export_behaviours(ctx, prof, 20 if q else 400)
         got = pc.drive(ctx, ["-mode", "replay", "-in", path, "-seed", str(ctx.seed)], "tlc-" + prof, acc)
         if got is not None:
             nbeh += len(behs)
